@@ -610,4 +610,53 @@ theorem filter_le_append_filter_gt {lt : κ → κ → Bool} (ht : StrictTotal l
     · rw [List.filter_cons_of_pos (by simpa using hc), List.filter_cons_of_neg (by simpa using hc)]
       rw [List.cons_append, filter_le_append_filter_gt ht c h'.2]
 
+/-! ## 8. How many requests the client loop needs -/
+
+/-- The loop needs one request per full page plus the final empty (or short) one: if the remaining items fit
+into `k` pages, `k + 1` requests suffice. -/
+theorem fetchAll_from_pages {lt : κ → κ → Bool} (ht : StrictTotal lt) {limit : Option Nat} (hl : 1 ≤ effLimit limit) :
+    ∀ (k : Nat) (pre suf : List (κ × ν)), Sorted lt (pre ++ suf) → suf.length ≤ k * effLimit limit →
+      fetchAll lt (pre ++ suf) limit (cursorOf pre) (k + 1) = suf
+  | 0, pre, suf, h, hf => by
+    have : suf = [] := List.eq_nil_of_length_eq_zero (by omega)
+    subst this
+    have hp : page lt (pre ++ []) (cursorOf pre) limit = [] := by
+      unfold page; rw [afterCursor_cursorOf ht h]; exact List.take_nil
+    rw [fetchAll]; simp only [hp]; rfl
+  | k + 1, pre, suf, h, hf => by
+    have hp : page lt (pre ++ suf) (cursorOf pre) limit = suf.take (effLimit limit) := by
+      unfold page; rw [afterCursor_cursorOf ht h]
+    rw [fetchAll]
+    simp only [hp]
+    cases hlast : (suf.take (effLimit limit)).getLast? with
+    | none =>
+      have := List.getLast?_eq_none_iff.mp hlast
+      rcases List.take_eq_nil_iff.mp this with h0 | h0
+      · omega
+      · simp [h0]
+    | some last =>
+      simp only []
+      have hx : pre ++ suf = (pre ++ suf.take (effLimit limit)) ++ suf.drop (effLimit limit) := by
+        rw [List.append_assoc, List.take_append_drop]
+      have hlen : (suf.drop (effLimit limit)).length ≤ k * effLimit limit := by
+        rw [List.length_drop]
+        rw [Nat.succ_mul] at hf
+        omega
+      have ih := fetchAll_from_pages ht hl k (pre ++ suf.take (effLimit limit)) (suf.drop (effLimit limit))
+        (hx ▸ h) hlen
+      rw [cursorOf_append_of_getLast? hlast, ← hx] at ih
+      rw [ih, List.take_append_drop]
+
+/-- `⌊n / effLimit⌋ + 2` requests always suffice for a listing of `n` items. -/
+theorem fetchAll_complete_pages {lt : κ → κ → Bool} (ht : StrictTotal lt) {xs : List (κ × ν)} (h : Sorted lt xs)
+    {limit : Option Nat} (hl : 1 ≤ effLimit limit) :
+    fetchAll lt xs limit none (xs.length / effLimit limit + 2) = xs := by
+  have hk : xs.length ≤ (xs.length / effLimit limit + 1) * effLimit limit := by
+    have h1 := Nat.div_add_mod xs.length (effLimit limit)
+    have h2 := Nat.mod_lt xs.length (show 0 < effLimit limit by omega)
+    rw [Nat.succ_mul, Nat.mul_comm]
+    omega
+  have := fetchAll_from_pages ht hl (xs.length / effLimit limit + 1) [] xs (by simpa using h) hk
+  simpa using this
+
 end CwPlus.Paginate
